@@ -131,11 +131,11 @@ fn check_mutant(seed: u64) -> Item {
 }
 
 /// every (field, boundary value) pair singly on a fixed pair of seeds — exhaustive part
-fn single_field_sweep(bits64: bool) -> Vec<Item> {
+fn single_field_sweep(bits64: bool, section_only: bool) -> Vec<Item> {
     let spec = ElfSpec {
         bits64,
-        phdr_note: Some((1..=20).collect()),
-        section_note: None,
+        phdr_note: if section_only { None } else { Some((1..=20).collect()) },
+        section_note: if section_only { Some((1..=20).collect()) } else { None },
         soname: Some("libsweep.so.3".into()),
         section_table: true,
         text: (0..300u32).map(|i| (i * 7) as u8).collect(),
@@ -154,6 +154,51 @@ fn single_field_sweep(bits64: bool) -> Vec<Item> {
                 it.violation = Some((format!("C14 panic at {loc}"), json!({"case": {"kind": "sweep", "bits64": bits64, "field": f.name, "value": format!("{v:#x}")}, "panic": msg})));
             }
             out.push(it);
+        }
+    }
+    // offset x size pairs of every program / section header (both set to boundary values)
+    let names: Vec<String> = built.fields.iter().map(|f| f.name.clone()).collect();
+    for (a, b) in [("p_offset", "p_filesz"), ("sh_offset", "sh_size"), ("p_vaddr", "p_memsz"), ("sh_name", "sh_offset")] {
+        for fa in built.fields.iter().filter(|f| f.name.ends_with(a)) {
+            let prefix = &fa.name[..fa.name.len() - a.len()];
+            let Some(ib) = names.iter().position(|n| *n == format!("{prefix}{b}")) else { continue };
+            let fb = &built.fields[ib];
+            for va in elf::boundary_values(built.bytes.len(), fa.size) {
+                for vb in elf::boundary_values(built.bytes.len(), fb.size) {
+                    let mut img = built.bytes.clone();
+                    elf::set_field(&mut img, fa, va);
+                    elf::set_field(&mut img, fb, vb);
+                    let mut it = item(fnv(format!("pair{bits64}{section_only}{}{va}{vb}", fa.name).as_bytes()), true);
+                    it.counters.push(("field_pair_sweep", 1));
+                    if let Err((msg, loc)) = identify(&img) {
+                        it.violation = Some((format!("C14 panic at {loc}"), json!({"case": {"kind": "pair-sweep", "bits64": bits64, "fields": [fa.name.clone(), fb.name.clone()], "values": [format!("{va:#x}"), format!("{vb:#x}")]}, "panic": msg})));
+                    }
+                    out.push(it);
+                }
+            }
+        }
+    }
+    // cross pairs: string-table location fields x every section's name offset (the section-name
+    // lookup combines fields of two different headers)
+    if section_only {
+        let strtab_fields: Vec<&elf::Field> = built.fields.iter().filter(|f| f.name == "sh3.sh_offset" || f.name == "sh3.sh_size" || f.name == "e_shstrndx" || f.name == "sh2.sh_offset").collect();
+        let name_fields: Vec<&elf::Field> = built.fields.iter().filter(|f| f.name.ends_with(".sh_name")).collect();
+        for fa in &strtab_fields {
+            for fb in &name_fields {
+                for va in elf::boundary_values(built.bytes.len(), fa.size) {
+                    for vb in elf::boundary_values(built.bytes.len(), fb.size) {
+                        let mut img = built.bytes.clone();
+                        elf::set_field(&mut img, fa, va);
+                        elf::set_field(&mut img, fb, vb);
+                        let mut it = item(fnv(format!("cross{bits64}{}{}{va}{vb}", fa.name, fb.name).as_bytes()), true);
+                        it.counters.push(("field_pair_sweep", 1));
+                        if let Err((msg, loc)) = identify(&img) {
+                            it.violation = Some((format!("C14 panic at {loc}"), json!({"case": {"kind": "cross-pair-sweep", "bits64": bits64, "fields": [fa.name.clone(), fb.name.clone()], "values": [format!("{va:#x}"), format!("{vb:#x}")]}, "panic": msg})));
+                        }
+                        out.push(it);
+                    }
+                }
+            }
         }
     }
     // every truncation of the seed image
@@ -302,8 +347,9 @@ pub fn run(rep: &mut Report, thorough: bool, n: u64, replay: Option<&str>) {
         items.extend(mutants);
         let rnd = crate::util::par_map(n / 4, |i| check_random_bytes(seed.wrapping_mul(1_000_000_021).wrapping_add(i)));
         items.extend(rnd);
-        items.extend(single_field_sweep(true));
-        items.extend(single_field_sweep(false));
+        for (b64, so) in [(true, false), (false, false), (true, true), (false, true)] {
+            items.extend(single_field_sweep(b64, so));
+        }
         let files = collect_system_elfs(if thorough { 100_000 } else { 300 }, seed);
         let sys = crate::util::par_map(files.len() as u64, |i| check_system_file(&files[i as usize]));
         items.extend(sys);
